@@ -69,7 +69,11 @@ def gen_attrs(rng, n=None):
             ('note', ''), ('ival', 3), ('fval', 2.5),
             ('npi', np.int32(7)), ('npf', np.float32(1.5)),
             ('arr', [1.0, 2.0, 3.5]), ('iarr', [1, 2, 3]),
-            ('history', 'made by pncmon'), ('scale', 1e-3)]
+            ('history', 'made by pncmon'), ('scale', 1e-3),
+            # arrays in the other byte order (read with np.fromfile from a
+            # big-endian binary file and stored as they came)
+            ('bearr', {'np': '>f4', 'v': [1.0, 0.75, 0.5, 0.0]}),
+            ('beiarr', {'np': '>i4', 'v': [1, 2, 300]})]
     if n is None:
         n = int(rng.integers(0, 4))
     idx = rng.permutation(len(pool))[:n]
@@ -80,6 +84,8 @@ def gen_attrs(rng, n=None):
             out.append([k, {'np': 'i4', 'v': int(v)}])
         elif k in ('npf',):
             out.append([k, {'np': 'f4', 'v': float(v)}])
+        elif isinstance(v, dict):
+            out.append([k, v])
         elif isinstance(v, list):
             out.append([k, {'np': 'f8' if isinstance(v[0], float) else 'i4',
                             'v': v}])
